@@ -405,6 +405,6 @@ Definition G3 : grammar :=
    (nt 117, [[nt 98]; [nt 116; [121]%N]]); (nt 97, [[[120]]; [[122]]]%N); (nt 98, [[[121]]; [[119]]]%N)].
 (* forall <t> in <a>: (<t> = <t>.<a>[2]) *)
 Definition S_clash : sform :=
-  SQ true (nt 116) None (InType (nt 97)) (SAtom true 50 [TFree (nt 116); TXPath [[(nt 116, 0); (nt 97, 1)]]]).
+  SQ true (nt 116) None (InType (nt 97)) None (SAtom true 50 [TFree (nt 116); TXPath [[(nt 116, 0); (nt 97, 1)]]]).
 Theorem fresh_clash_refuted : exists f, elab G3 S_clash = Ok f /\ well_scoped [] f = false.
 Proof. eexists. split; [vm_compute; reflexivity|vm_compute; reflexivity]. Qed.
